@@ -159,16 +159,50 @@ func raceRun(args []string) (any, error) {
 		return nil, err
 	}
 	rng := rand.New(rand.NewSource(*seed))
+	msgs := []string{"abc 12", "zzz 7", "nomatch", "w 0"}
+	sum := &Summary{Extra: map[string]any{}}
+	// cold start: the very first parses, loads and runs of this process happen concurrently (tables built on first use,
+	// one-time initialisation, pools that are still empty); their results are compared with the sequential ones below
+	type coldRes struct{ msg, got, parse string }
+	coldN := 2 + int(*seed%7)
+	cold := make([]coldRes, coldN)
+	{
+		var wg sync.WaitGroup
+		start := make(chan struct{})
+		for i := 0; i < coldN; i++ {
+			wg.Add(1)
+			go func(i int) {
+				defer wg.Done()
+				<-start
+				cold[i].msg = msgs[i%len(msgs)]
+				cold[i].parse = parseRender("p.p", parseSources[i%len(parseSources)])
+				if c, e := loadShared(); e == nil {
+					cold[i].got = sharedRun(c, cold[i].msg, nil)
+				} else {
+					cold[i].got = "load error: " + e.Error()
+				}
+			}(i)
+		}
+		close(start)
+		wg.Wait()
+	}
 	sc, err := loadShared()
 	if err != nil {
 		return nil, err
 	}
-	msgs := []string{"abc 12", "zzz 7", "nomatch", "w 0"}
 	want := map[string]string{}
 	for _, m := range msgs {
 		want[m] = sharedRun(sc, m, nil)
 	}
-	sum := &Summary{Extra: map[string]any{}}
+	for i, c := range cold {
+		if c.got != want[c.msg] {
+			sum.miss("race-cold-start:"+c.msg, map[string]any{"message": c.msg, "alone": want[c.msg], "at_cold_start": c.got, "goroutines": coldN})
+		}
+		if alone := parseRender("p.p", parseSources[i%len(parseSources)]); alone != c.parse {
+			sum.miss("race-cold-parse", map[string]any{"source": parseSources[i%len(parseSources)], "alone": alone, "at_cold_start": c.parse})
+		}
+	}
+	sum.Extra["cold_start_goroutines"] = coldN
 	runs, parses, nfresh := 0, 0, 0
 	var parsed [][2]string
 	type loadedSet struct {
